@@ -1,5 +1,5 @@
 """C16 — a torn final write costs at most the unacknowledged tail."""
-from gen import lib, crash, recover
+from gen import dbh, lib, crash, recover
 
 PROP_FILE = "props/C16.v"
 WANT = ("recover", "post")
@@ -40,16 +40,21 @@ def gen_recover(tier, rng):
 
 def suites(tier, seed, rng):
     return [crash.CrashSuite(corpus() + gen_cases(tier, rng), WANT),
-            recover.RecoverSuite(gen_recover(tier, rng))]
+            recover.RecoverSuite(gen_recover(tier, rng)),
+            dbh.DbSuite(dbh.gen_reuse_boundary(tier, rng))]
 
 
 def replay_suites(rp):
+    if rp.get("suite") == "dbhist":
+        return [dbh.DbSuite([rp["case"]])]
     if rp.get("suite") == "recover":
         return [recover.RecoverSuite([rp["case"]])]
     return [crash.CrashSuite([rp["case"]], WANT)]
 
 
 def still_fails(suite, case, workdir):
+    if suite == "dbhist":
+        return dbh.still_fails(case, workdir)
     if case.count(" # ") != 2:
         return False
     if suite == "recover":
@@ -58,6 +63,8 @@ def still_fails(suite, case, workdir):
 
 
 def shrink(f, workdir):
+    if f["suite"] == "dbhist":
+        return lib.shrink_case("dbhist", f["case"], lambda c: dbh.still_fails(c, workdir)), f.get("detail", "")
     if f["suite"] == "recover":
         return recover.shrink(f["case"], workdir), f.get("detail", "")
     return crash.shrink(f["case"], workdir, WANT)
@@ -68,6 +75,8 @@ def nontrivial(suite, case):
 
 
 def classify(suite, case):
+    if suite == "dbhist":
+        return "dbhist:reuse-across-block-boundary"
     if suite == "recover":
         return "recover:torn"
     return "crash:" + case.split(" # ")[2].split(",")[0].split(":")[0]
